@@ -116,10 +116,12 @@ class HdlcModel:
         self.buf = BufSem(M, self.roles.buffer_cls)
         if self.buf.err:
             raise Undecided(f"HDLC input buffer: {self.buf.err}")
-        self.engine = Engine(M, keep_props=self.keep)
+        self.engine = Engine(M, keep_props=self.keep, inline_depth=10)
         self.loop, raw_paths = self._loop_paths()
         self.paths = [self._classify(p) for p in raw_paths]
         self.paths = [p for p in self.paths if p is not None]
+        if self.__dict__.get("unresolved"):
+            raise Undecided("the per-octet step of HdlcFrameReader.read calls code the step model cannot resolve: " + "; ".join(sorted(set(self.unresolved))[:3]))
 
     # ------------------------------------------------------------------ roles
     def _const(self, name, expect):
@@ -171,7 +173,7 @@ class HdlcModel:
         # buffer: the sub-object that receives the chunk parameter in read() (resolved through local aliases)
         chunk = self.read_fn.params[0] if self.read_fn.params else None
         try:
-            for p in Engine(M, keep_props=self.keep).run(self.read_fn):
+            for p in Engine(M, keep_props=self.keep, inline_depth=10).run(self.read_fn):
                 for e in p.effects:
                     if e[0] == "callm" and e[3] == (("p", chunk),) and e[1][0] == "f0" and e[1][1] == SELF:
                         r.buffer = e[1][2]
@@ -194,6 +196,9 @@ class HdlcModel:
         if it is None:
             raise Undecided("HdlcFrameReader.read is not `prologue; one loop over the buffered octets; epilogue`")
         node, conts, leaving, _ = it
+        from sa.paths import _iter_sentinel
+        if isinstance(node, (ast.For, ast.AsyncFor)) and _iter_sentinel(node) is None:
+            raise Undecided("HdlcFrameReader.read iterates over a sequence / generator instead of popping the buffered octets one by one: the per-octet step model does not apply")
         self.leaving = leaving
         for p in leaving:
             # the only way out of the loop is its test: a path that pops an octet and then leaves is not a per-octet step
@@ -373,7 +378,10 @@ class HdlcModel:
                         continue
                 post.other.append(f"{show_sv(base)}.{meth}")
                 continue
-            if k in ("call",):
+            if k in ("call", "calldyn"):
+                # a call the path engine could not resolve to repository code (a callable held in a field / local, an unknown function): the step's
+                # effect is unknown, which is a gap of the model and not a property of the code
+                self.__dict__.setdefault("unresolved", []).append(f"{k} {show_sv(e[1])[:60]} (line {e[-1] if isinstance(e[-1], int) else '?'})")
                 post.other.append(f"call {e[1]}")
                 continue
             if k == "raise":
